@@ -2,6 +2,7 @@
   Petl.Ops — dispatch table of the driver: op name ↦ (parse arguments, run model, print).
 -/
 import Petl.Proto
+import Petl.Sort
 namespace Petl
 
 def opCmp : P String := do
@@ -10,9 +11,56 @@ def opCmp : P String := do
   pure (" ".intercalate [showBool (Val.lt a b), showBool (Val.eq a b), showBool (Val.le a b),
     showBool (Val.gt a b), showBool (Val.ge a b), showBool (Val.pyEq a b)])
 
+/-- sort <key> <reverse> <buffersize|-> <table> -/
+def opSort : P String := do
+  let key ← pKey
+  let rev ← pBool
+  let bs ← pOptNat
+  let t ← pTable
+  pure (showOut (sortView t key rev bs))
+
+/-- mergesorted <key> <reverse> <buffersize|-> <presorted> <n> <table>…  (tables over one header):
+    the per-table sort followed by the k-way merge -/
+def opMergeSort : P String := do
+  let key ← pKey
+  let rev ← pBool
+  let bs ← pOptNat
+  let presorted ← pBool
+  let ts ← pList pTable
+  match ts with
+  | [] => pure (showOut (.ok []))
+  | t0 :: _ =>
+    let hdr := t0.headD []
+    match (match key with
+           | some k => asindices hdr k
+           | none => .ok (List.range hdr.length)) with
+    | .error e => pure (showOut (.fail [hdr] e))
+    | .ok idx =>
+      let le := rowLe idx rev
+      let datas := ts.map (fun t => ((if presorted then t.drop 1 else sortRows le bs (t.drop 1))).map (squareRow hdr.length .none))
+      pure (showOut (.ok (hdr :: mergeSorted le datas)))
+
+/-- issorted <key> <reverse> <strict> <table> -/
+def opIsSorted : P String := do
+  let key ← pKey
+  let rev ← pBool
+  let strict ← pBool
+  let t ← pTable
+  match t with
+  | [] => pure "ERR StopIteration"
+  | hdr :: rows =>
+    match (match key with
+           | some k => asindices hdr k
+           | none => .ok (List.range hdr.length)) with
+    | .error e => pure ("ERR " ++ e.code)
+    | .ok idx => pure (showBool (isSortedBy idx rev strict rows))
+
 def dispatch (op : String) : Option (P String) :=
   match op with
   | "cmp" => some opCmp
+  | "sort" => some opSort
+  | "mergesort" => some opMergeSort
+  | "issorted" => some opIsSorted
   | _ => none
 
 end Petl
